@@ -6,12 +6,12 @@
 (* line numbers are 1-based and inclusive; FULL is the START tag line + 1   *)
 (* .. the END tag line - 1; a typed segment "contains the ... code only").  *)
 (*                                                                         *)
-(* One API = [ts, naming, nsvc, reqpkg, flatten, rot].  Every API has one  *)
+(* One API = [ts, naming, nsvc, reqpkg, flatten, rot, width].  Every API has one  *)
 (* RPC per calling form (client-streaming forms only when gRPC is          *)
 (* requested: REST cannot carry them) in each of nsvc services that share  *)
 (* their RPC names, plus the keyword-named RPC `Import` for naming = "kw".  *)
 (* The request of the RPC with index i carries required fields of the      *)
-(* kinds AllKinds[i + rot .. i + rot + Width - 1] (rotation: every calling *)
+(* kinds AllKinds[i + rot .. i + rot + width - 1] (rotation: every calling *)
 (* form meets every kind).                                                 *)
 (*                                                                         *)
 (* Pipeline actions (one per step of the generator / of a sample run):     *)
@@ -28,7 +28,7 @@
 EXTENDS Naturals, Sequences, FiniteSets, TLC, SequencesExt, FiniteSetsExt, Json
 
 CONSTANTS Rotations,      \* set of rotation offsets into AllKinds
-          Width,          \* kinds per request
+          Widths,         \* set of numbers of kinds per request
           TransportSets,  \* set of subsets of {"grpc", "rest"}
           Namings,        \* subset of {"plain", "nons", "kw", "host"}
           NSvcs,          \* subset of 1..2
@@ -72,7 +72,7 @@ AllKinds == <<"string", "int32", "enum", "msg", "oneof_scalar", "resref", "rep_s
               "int64", "uint32", "uint64", "sint32", "sint64", "fixed32", "fixed64", "sfixed32", "sfixed64",
               "float", "double", "bytes", "oneof_msg", "rep_enum", "msg_plain", "oneof_plain", "rep_msg", "map", "msg_dep">>
 KindAt(i) == AllKinds[((i - 1) % Len(AllKinds)) + 1]
-KindsOf(a, r) == {KindAt(RpcIdx(r) + a.rot + w) : w \in 0..(Width - 1)}
+KindsOf(a, r) == {KindAt(RpcIdx(r) + a.rot + w) : w \in 0..(a.width - 1)}
 
 \* inventory ---------------------------------------------------------------
 SampleKinds(a) == {"sync"} \cup (IF "grpc" \in a.ts THEN {"async"} ELSE {})
@@ -181,7 +181,8 @@ SampleFiles(form) ==
     : ni \in 1..2, nq \in 1..MaxCode, nx \in 1..MaxCode, nr \in 1..MaxCode, tb \in BOOLEAN }
 
 -----------------------------------------------------------------------------
-ApiSpace == [ts : TransportSets, naming : Namings, nsvc : NSvcs, reqpkg : ReqPkgs, flatten : Flattens, rot : Rotations]
+ApiSpace == [ts : TransportSets, naming : Namings, nsvc : NSvcs, reqpkg : ReqPkgs, flatten : Flattens, rot : Rotations,
+            width : Widths]
 NoFocus == [svc |-> "", rpc |-> "", kind |-> "", transport |-> "", tag |-> ""]
 
 Init == /\ api \in ApiSpace
@@ -298,7 +299,7 @@ RpcRec(a, r) == [id |-> r, name |-> RpcName(r), snake |-> Snake(r), form |-> For
 Canonical == focus = One(specs) /\ lines = One(SampleFiles(FormOf(focus.rpc)))
 Emit == (stage = "done" /\ Canonical) =>
           PrintT(<<"CASE", ToJson([api |-> [ts |-> api.ts, naming |-> api.naming, nsvc |-> api.nsvc, reqpkg |-> api.reqpkg,
-                                            flatten |-> api.flatten, rot |-> api.rot, short |-> Short(api),
+                                            flatten |-> api.flatten, rot |-> api.rot, width |-> api.width, short |-> Short(api),
                                             version |-> Version, services |-> Services(api)],
                                    inventory |-> specs,
                                    rpcs |-> {RpcRec(api, r) : r \in RpcIds(api)}])>>)
